@@ -14,6 +14,7 @@
   (`alias_order_seller_counterexample`).
 -/
 import DymVerif.Props.C17
+import DymVerif.Lemmas.DymNSAliasSO
 namespace DymVerif.C17
 open DymVerif DymVerif.DymNS
 
@@ -60,6 +61,33 @@ theorem alias_order_after_transfer {s s' : State} {a b : Acct} {c : Chain} {l : 
     injection hsrc with hsrc; subst hsrc
     rw [hr'] at hr2; injection hr2 with hr2; subst hr2
     exact ⟨so, bid, by rw [← hso]; exact hso', hb, hbal⟩
+
+/-- **every open alias sell order stays attached to a registered RollApp** — in every reachable state,
+    whatever was transferred, migrated or re-parametrised in between: a completion always finds the
+    account to pay (`sale_exact_complete_alias`: the owner of that RollApp at that moment) -/
+theorem alias_order_attached (p : Params) (t : Nat) (ops : List Op) (l : AliasId) (so : SellOrder)
+    (h : AMap.get (run (State.start p t) ops).aliasSO l = some so) :
+    ∃ src r, AMap.get (run (State.start p t) ops).al.aliasTo l = some src ∧
+      AMap.get (run (State.start p t) ops).al.rollapps src = some r := by
+  have h0 : ASOOK false (State.start p t) := by
+    intro l so h; simp [State.start, State.init] at h
+  obtain ⟨src, r, h1, h2, _⟩ := run_asook ops h0 (fun e => by cases e) l so h
+  exact ⟨src, r, h1, h2⟩
+
+/-- **alias_order_seller_partial**: in every history WITHOUT a RollApp ownership transfer, every open
+    alias sell order was placed by the current owner of the alias' RollApp — the account a completion
+    pays and the only one that may cancel.  (Full statement, for all histories: fails, see
+    `alias_order_seller_counterexample` below; what holds in general is `alias_order_attached`
+    together with `alias_order_after_transfer`.) -/
+theorem alias_order_seller_partial (p : Params) (t : Nat) (ops : List Op)
+    (hops : ∀ op ∈ ops, ∀ x c y, op ≠ .transferRollapp x c y) (l : AliasId) (so : SellOrder)
+    (h : AMap.get (run (State.start p t) ops).aliasSO l = some so) :
+    ∃ src r, AMap.get (run (State.start p t) ops).al.aliasTo l = some src ∧
+      AMap.get (run (State.start p t) ops).al.rollapps src = some r ∧ so.seller = r.owner := by
+  have h0 : ASOOK true (State.start p t) := by
+    intro l so h; simp [State.start, State.init] at h
+  obtain ⟨src, r, h1, h2, h3⟩ := run_asook ops h0 (fun _ => hops) l so h
+  exact ⟨src, r, h1, h2, h3 rfl⟩
 
 /-- a0 creates RollApp 1 (alias 0), a1 creates RollApp 2 (alias 1); a0 lists alias 0, a1 bids 3 for
     RollApp 2; a0 transfers RollApp 1 to a2; the order runs out and the bidder completes it -/
